@@ -1,6 +1,7 @@
 package main
 
 import (
+	"go/token"
 	"crypto/sha256"
 	"fmt"
 	"go/constant"
@@ -338,6 +339,18 @@ func vocabOf(fn *ssa.Function, opaque func(callee *ssa.Function) bool) map[strin
 					}
 				case *ssa.Panic:
 					out["panic"] = true
+				case *ssa.UnOp:
+					// reading an unexported package-level variable that holds the result of one call
+					// made at initialisation (var fpMod = fr.Modulus()) performs that operation
+					if g, ok := x.X.(*ssa.Global); ok && x.Op == token.MUL {
+						if v := globalInitCall(g); v != nil {
+							if c, ok := v.(*ssa.Call); ok {
+								if cal := c.Call.StaticCallee(); cal != nil && strings.HasPrefix(fnPkgPath(cal), modPath) && fnPkgPath(cal) != home {
+									record(&c.Call)
+								}
+							}
+						}
+					}
 				case ssa.CallInstruction:
 					cc := x.Common()
 					if cc.IsInvoke() {
